@@ -209,6 +209,8 @@ RULES = [
     ("R-C17-assemble", 14, "assembled pieces are fresh or mtime-guarded and all reach the result", rule_assemble),
     ("R-C17-module", 11, "module reload covers all dependencies", rule_module),
 ]
+from .. import refs as _refs
+RULES = RULES + [_refs.ref_rule('C17')]
 
 
 def run(tier="quick", replay=None):
